@@ -243,6 +243,9 @@ func (w *World) fn(rel, name string) *ssa.Function {
 	if i := strings.IndexByte(name, '.'); i >= 0 {
 		n := w.named(rel, name[:i])
 		if n == nil {
+			if mo := movedFunc[rel+"|"+name]; mo != nil {
+				return w.Prog.FuncValue(mo)
+			}
 			return nil
 		}
 		for k := 0; k < n.NumMethods(); k++ {
@@ -250,10 +253,16 @@ func (w *World) fn(rel, name string) *ssa.Function {
 				return w.Prog.FuncValue(n.Method(k))
 			}
 		}
+		if mo := movedFunc[rel+"|"+name]; mo != nil {
+			return w.Prog.FuncValue(mo)
+		}
 		return nil
 	}
 	o, _ := w.obj(rel, name).(*types.Func)
 	if o == nil {
+		if mo := movedFunc[rel+"|"+name]; mo != nil {
+			return w.Prog.FuncValue(mo)
+		}
 		return nil
 	}
 	return w.Prog.FuncValue(o)
@@ -340,6 +349,30 @@ func (w *World) funcsIn(rel string) []*ssa.Function {
 
 func relName(f *ssa.Function) string {
 	s := f.String()
+	// a function taken for a recorded one under another receiver or name (rename.go: movedFunc) is known to the rules
+	// and the reviewed tables by its recorded name; so are its closures
+	root := origin(f)
+	for root.Parent() != nil {
+		root = origin(root.Parent())
+	}
+	if ro, ok := root.Object().(*types.Func); ok && ro != nil {
+		if full, moved := movedFull[ro.Origin()]; moved {
+			return full + strings.TrimPrefix(origin(f).String(), root.String())
+		}
+		// a method whose receiver changed between pointer and value keeps its recorded rendering
+		if sig, ok := ro.Type().(*types.Signature); ok && sig.Recv() != nil && ro.Pkg() != nil {
+			key := funcObjName(ro)
+			if r := recvNameOf(sig); r != "" {
+				key = r + "." + key
+			}
+			if full := recordedFull[relOfPkg(ro.Pkg())+"|"+key]; full != "" {
+				_, nowPtr := sig.Recv().Type().(*types.Pointer)
+				if wasPtr := strings.HasPrefix(full, "(*"); wasPtr != nowPtr {
+					return full + strings.TrimPrefix(origin(f).String(), root.String())
+				}
+			}
+		}
+	}
 	s = strings.ReplaceAll(s, modPath+"/", "")
 	s = strings.ReplaceAll(s, modPath+".", "dials.")
 	s = strings.ReplaceAll(s, modPath, "dials")
